@@ -5,6 +5,8 @@ import (
 	"go/token"
 	"go/types"
 	"strings"
+
+	"golang.org/x/tools/go/cfg"
 )
 
 func init() { register("C09", rulesC09, nil) }
@@ -25,6 +27,7 @@ func rulesC09(c *Ctx) {
 		c.Need(body != nil, "scanEvents: returned iterator literal")
 		c.touch(body)
 		g := body.Graph()
+		// the dispatch of an event is a call of yield without error: written in place, or inside a local closure (optional)
 		var dispatch types.Object
 		var dispatchLit *Func
 		yieldParam := body.Params()[0]
@@ -38,10 +41,13 @@ func rulesC09(c *Ctx) {
 				}
 			}
 		}
-		c.Need(dispatch != nil, "scanEvents: local dispatch closure calling yield")
-		c.touch(dispatchLit)
+		if dispatchLit != nil {
+			c.touch(dispatchLit)
+		}
 		// isEOF and line variables
 		var isEOF, lineVar, errVar types.Object
+		var readStmt ast.Node
+		isEOFExact := false
 		ioEOF := c.Std("io", "", "ReadAll").Pkg().Scope().Lookup("EOF")
 		for _, w := range Writes(body.Body, false) {
 			if w.RHS == nil {
@@ -49,6 +55,7 @@ func rulesC09(c *Ctx) {
 					if ce, ok := ast.Unparen(as.Rhs[0]).(*ast.CallExpr); ok {
 						if fn := body.Callee(ce); fn != nil && fn.Name() == "ReadBytes" {
 							lineVar, errVar = body.ObjOf(as.Lhs[0]), body.ObjOf(as.Lhs[1])
+							readStmt = as
 						}
 					}
 				}
@@ -68,6 +75,7 @@ func rulesC09(c *Ctx) {
 				isEOF = body.ObjOf(id)
 				ce, isC := ast.Unparen(w.RHS).(*ast.CallExpr)
 				exact := isC && body.IsCallTo(ce, errIs) && len(ce.Args) == 2 && body.ObjOf(ce.Args[0]) == errVar && body.ObjOf(ce.Args[1]) == ioEOF
+				isEOFExact = exact && w.Tok == token.DEFINE
 				c.Check(exact, "scanEvents:end-of-input-is-io.EOF-only", body, w.Stmt, "end of input is recognised as errors.Is(err, io.EOF) exactly (got %s): a torn connection (unexpected EOF, reset) is a read error, not the end of the stream, and must not flush a half-received event", exprStr(w.RHS))
 			}
 		}
@@ -84,22 +92,123 @@ func rulesC09(c *Ctx) {
 				return true
 			})
 		}
-		c.Need(isEOF != nil && lineVar != nil && errVar != nil, "scanEvents: line, err, isEOF")
+		c.Need(lineVar != nil && errVar != nil && readStmt != nil, "scanEvents: line, err := ReadBytes")
+		isDispatch := func(n ast.Node) bool {
+			for _, call := range body.AllCalls(n, false) {
+				if dispatch != nil && body.ObjOf(call.Fun) == dispatch {
+					return true
+				}
+				if body.ObjOf(call.Fun) == types.Object(yieldParam) && len(call.Args) == 2 && isNilIdent(call.Args[1]) {
+					return true
+				}
+			}
+			return false
+		}
+		dispatchVs := g.Vertices(isDispatch)
+		c.Need(len(dispatchVs) > 0, "scanEvents: a dispatch (yield of an event without error)")
+		readV := g.VertexOf(readStmt)
+		// "the line": the variable the read fills and every variable that is computed from it (the trimmed line, its copy
+		// in the variables that received the results of an expanded helper)
+		lineVars := map[types.Object]bool{lineVar: true}
+		for changed := true; changed; {
+			changed = false
+			for _, w := range Writes(body.Body, false) {
+				o := body.ObjOf(w.LHS)
+				if w.RHS == nil || o == nil || lineVars[o] || !types.Identical(o.Type(), lineVar.Type()) {
+					continue
+				}
+				for lv := range lineVars {
+					if body.Mentions(w.RHS, lv) {
+						lineVars[o], changed = true, true
+					}
+				}
+			}
+		}
+		// a flag: a boolean local that some statement sets to a constant (or declares without value), or a copy of one —
+		// what it says depends on the path taken, which a valuation of the conditions cannot express
+		var isFlag func(o types.Object, depth int) bool
+		isFlag = func(o types.Object, depth int) bool {
+			v, ok := o.(*types.Var)
+			if !ok || v.IsField() || depth > 3 {
+				return false
+			}
+			if b, isB := v.Type().Underlying().(*types.Basic); !isB || b.Info()&types.IsBoolean == 0 {
+				return false
+			}
+			for _, w := range Writes(body.Body, false) {
+				if body.ObjOf(w.LHS) != o {
+					continue
+				}
+				if w.RHS == nil {
+					if _, isVS := w.Stmt.(*ast.ValueSpec); isVS {
+						return true
+					}
+					continue
+				}
+				if _, isC := body.ConstBool(w.RHS); isC {
+					return true
+				}
+				if id, isID := ast.Unparen(w.RHS).(*ast.Ident); isID && body.ObjOf(id) != o && isFlag(body.ObjOf(id), depth+1) {
+					return true
+				}
+			}
+			return false
+		}
+		// what the code does with one line is decided by evaluating the branch conditions from the read onward (until the
+		// next read) under a valuation of the read's outcome: errState 0 = a line was read (err == nil), 1 = clean end of
+		// input (io.EOF), 2 = any other read error; blank = the (trimmed) line is empty
+		outcome := func(errState int, blank tri) func(ast.Expr) tri {
+			return func(e ast.Expr) tri {
+				b2t := func(b bool) tri {
+					if b {
+						return triTrue
+					}
+					return triFalse
+				}
+				if x, trueWhenNil, isNil := NilTest(e); isNil && body.ObjOf(x) == errVar {
+					return b2t(trueWhenNil == (errState == 0))
+				}
+				if id, isID := ast.Unparen(e).(*ast.Ident); isID && isEOF != nil && isEOFExact && body.ObjOf(id) == isEOF {
+					return b2t(errState == 1)
+				}
+				if ce, isC := ast.Unparen(e).(*ast.CallExpr); isC && body.IsCallTo(ce, errIs) && len(ce.Args) == 2 && body.ObjOf(ce.Args[0]) == errVar && body.ObjOf(ce.Args[1]) == ioEOF {
+					return b2t(errState == 1)
+				}
+				if x, y, op, ok := binaryCmp(ast.Unparen(e)); ok {
+					if op == token.EQL && body.ObjOf(x) == errVar && body.ObjOf(y) == ioEOF {
+						return b2t(errState == 1)
+					}
+					if ce, isC := ast.Unparen(x).(*ast.CallExpr); isC && body.BuiltinName(ce) == "len" && len(ce.Args) == 1 && lineVars[body.ObjOf(ce.Args[0])] && blank != triUnknown {
+						if z, isZ := body.ConstInt(y); isZ && z == 0 {
+							switch op {
+							case token.EQL:
+								return blank
+							case token.GTR:
+								return triNot(blank)
+							}
+						}
+					}
+				}
+				return triUnknown
+			}
+		}
+		reread := func(v int) bool { return v == readV }
+		// opaque: the vertex is guarded by a flag the valuation says nothing about (its name), so "reachable" proves nothing
+		opaque := func(v int, leaf func(ast.Expr) tri) string {
+			for _, a := range g.GuardsAt(v) {
+				e := ast.Unparen(a.E)
+				if u, isU := e.(*ast.UnaryExpr); isU && u.Op == token.NOT {
+					e = ast.Unparen(u.X)
+				}
+				if id, isID := e.(*ast.Ident); isID && leaf(id) == triUnknown && isFlag(body.ObjOf(id), 0) {
+					return id.Name
+				}
+			}
+			return ""
+		}
 		// read errors other than EOF are yielded as errors and end the iteration
 		// decided by evaluating the branch conditions under "err is non-nil and is not io.EOF": whatever is reachable then
 		// contains no dispatch, and no exit is reachable without yielding a non-nil error first
-		readErrLeaf := func(e ast.Expr) tri {
-			if x, trueWhenNil, isNil := NilTest(e); isNil && body.ObjOf(x) == errVar {
-				if trueWhenNil {
-					return triFalse
-				}
-				return triTrue
-			}
-			if ce, isC := ast.Unparen(e).(*ast.CallExpr); isC && body.IsCallTo(ce, errIs) && len(ce.Args) == 2 && body.ObjOf(ce.Args[0]) == errVar && body.ObjOf(ce.Args[1]) == ioEOF {
-				return triFalse
-			}
-			return triUnknown
-		}
 		yieldsErr := func(v int) bool {
 			for _, call := range body.AllCalls(g.Node(v), false) {
 				if body.ObjOf(call.Fun) == types.Object(yieldParam) && len(call.Args) == 2 && !isNilIdent(call.Args[1]) {
@@ -108,17 +217,24 @@ func rulesC09(c *Ctx) {
 			}
 			return false
 		}
-		underErr := g.ReachUnder(readErrLeaf, nil)
-		noYield := g.ReachUnder(readErrLeaf, yieldsErr)
+		underErr := c09ReachFrom(g, readV, outcome(2, triUnknown), reread)
+		noYield := c09ReachFrom(g, readV, outcome(2, triUnknown), func(v int) bool { return reread(v) || yieldsErr(v) })
 		okErr := false
 		for v, in := range underErr {
 			if in && yieldsErr(v) {
 				okErr = true
 			}
 		}
-		for _, v2 := range g.callVerticesOfVar(dispatch) {
+		var errDispatch ast.Node
+		errOpaque := ""
+		for _, v2 := range dispatchVs {
 			if underErr[v2] {
+				if fl := opaque(v2, outcome(2, triUnknown)); fl != "" {
+					errOpaque = fl
+					continue
+				}
 				okErr = false
+				errDispatch = g.Node(v2)
 			}
 		}
 		for _, x := range g.Exits {
@@ -126,11 +242,37 @@ func rulesC09(c *Ctx) {
 				okErr = false
 			}
 		}
-		c.Check(okErr, "scanEvents:read-error-is-terminal", body, nil, "a read error other than io.EOF is yielded as an error and ends the iteration without dispatching")
+		if okErr && errOpaque != "" {
+			c.Undecided("scanEvents:read-error-is-terminal", body, nil, "a dispatch behind the flag %s: whether a read error can reach it is not decided by evaluating the conditions", errOpaque)
+		} else {
+			c.Check(okErr, "scanEvents:read-error-is-terminal", body, errDispatch, "a read error other than io.EOF is yielded as an error and ends the iteration without dispatching (the fields of an event whose blank line never arrived are dropped, not flushed)")
+		}
 		// dispatch sites
 		n := 0
-		for _, v := range g.callVerticesOfVar(dispatch) {
+		for _, v := range dispatchVs {
 			n++
+			key := "scanEvents:dispatch"
+			if dispatch == nil || isEOF == nil {
+				// no named end-of-input flag / no dispatch closure: the same classification by evaluation
+				at := func(errState int, blank tri) bool { return c09ReachFrom(g, readV, outcome(errState, blank), reread)[v] }
+				if fl := opaque(v, outcome(0, triUnknown)); fl != "" {
+					c.Undecided(key+"#site", body, g.Node(v), "a dispatch behind the flag %s, which is set along the way: which outcome of the read leads here is not decided by evaluating the conditions", fl)
+					continue
+				}
+				switch {
+				case at(0, triFalse):
+					c.Fail(key+"#unguarded", body, g.Node(v), "dispatch that is not tied to a blank line: it is reached behind a non-empty line that was read completely")
+				case at(1, triFalse):
+					c.Fail(key+"#at-end-of-input", body, g.Node(v), "the pending (unterminated) event is dispatched on the end-of-input path: a body cut inside an event surfaces a truncated event, and its id advances the resume cursor although the message was never delivered (the SSE rule is to discard pending data at EOF)")
+				case at(1, triTrue):
+					c.Fail(key+"#blank-line-or-end-of-input", body, g.Node(v), "the blank-line branch is also taken for the empty read that signals end of input (len(line)==0 at io.EOF): an event whose terminating blank line never arrived (e.g. body ends after \"id: x\\n\") is dispatched")
+				case at(0, triTrue):
+					c.Ok(key+"#blank-line", body, g.Node(v), "dispatch on a blank line that was actually read")
+				default:
+					c.Undecided(key+"#site", body, g.Node(v), "a dispatch that no outcome of the read reaches in this function's own flow")
+				}
+				continue
+			}
 			guards := g.GuardsAt(v)
 			blank := hasAtom(guards, func(a Atom) bool {
 				x, y, op, ok := binaryCmp(a.E)
@@ -143,7 +285,6 @@ func rulesC09(c *Ctx) {
 			})
 			atEOF := hasAtom(guards, func(a Atom) bool { return a.Val && body.ObjOf(a.E) == isEOF })
 			notEOF := hasAtom(guards, func(a Atom) bool { return !a.Val && body.ObjOf(a.E) == isEOF })
-			key := "scanEvents:dispatch"
 			switch {
 			case atEOF:
 				c.Fail(key+"#at-end-of-input", body, g.Node(v), "the pending (unterminated) event is dispatched on the end-of-input path: a body cut inside an event surfaces a truncated event, and its id advances the resume cursor although the message was never delivered (the SSE rule is to discard pending data at EOF)")
@@ -788,4 +929,64 @@ func ruleStreamNeverSilent(c *Ctx) {
 	}
 	c.Pin("handleJSON fallible steps", nTested, 2)
 
+}
+
+// c09ReachFrom is Graph.ReachUnder started at a vertex other than the entry: the vertices reachable from start when the
+// branch conditions are evaluated in three-valued logic under the valuation leaf0 (start itself is entered even when
+// blocked says otherwise, so blocking start means "until control comes back to it").
+func c09ReachFrom(g *Graph, start int, leaf0 func(ast.Expr) tri, blocked func(int) bool) []bool {
+	pruned := map[[2]int]bool{}
+	for i, b := range g.C.Blocks {
+		if !b.Live || len(b.Succs) != 2 || len(b.Nodes) == 0 {
+			continue
+		}
+		cond, ok := b.Nodes[len(b.Nodes)-1].(ast.Expr)
+		if !ok {
+			continue
+		}
+		ev := g.off[i] + len(b.Nodes)
+		depth := 0
+		var leaf func(ast.Expr) tri
+		leaf = func(e ast.Expr) tri {
+			if t := leaf0(e); t != triUnknown {
+				return t
+			}
+			if _, isID := ast.Unparen(e).(*ast.Ident); isID && depth < 4 {
+				if def := g.boolLocalValue(e, ev-1); def != nil {
+					depth++
+					t := evalTri(def, leaf)
+					depth--
+					return t
+				}
+			}
+			return triUnknown
+		}
+		var val tri
+		switch b.Succs[0].Kind {
+		case cfg.KindIfThen, cfg.KindForBody:
+			val = evalTri(cond, leaf)
+		case cfg.KindSwitchCaseBody:
+			cc, _ := b.Succs[0].Stmt.(*ast.CaseClause)
+			var sw *ast.SwitchStmt
+			if cc != nil {
+				if blk, ok := g.F.ParentOf(cc).(*ast.BlockStmt); ok {
+					sw, _ = g.F.ParentOf(blk).(*ast.SwitchStmt)
+				}
+			}
+			if sw == nil || sw.Tag != nil {
+				continue
+			}
+			val = evalTri(cond, leaf)
+		default:
+			continue
+		}
+		switch val {
+		case triTrue:
+			pruned[[2]int{ev, 1}] = true
+		case triFalse:
+			pruned[[2]int{ev, 0}] = true
+		}
+	}
+	seen, _ := g.reach([]int{start}, blocked, func(u, k int) bool { return pruned[[2]int{u, k}] })
+	return seen
 }
